@@ -86,4 +86,13 @@ def nextCounter (c : Nat) : Out Nat := if c = 2 ^ 32 - 1 then .refused else .ok 
 checks the counter wraps to 0 and C07's IVs repeat) -/
 def nextCounterPinned (c : Nat) : Out Nat := if c = 2 ^ 32 - 1 then .panic else .ok (c + 1)
 
+/-- `ValidityInfo` serialisation: the year of the date once shifted to UTC (an offset moves a date by
+less than a day, so the year changes by at most one); `checked_to_offset` refuses outside
+-9999..9999, then RFC 3339 formatting refuses outside 0..9999 -/
+def validityYearToUtc (utcYear : Int) : Out Int :=
+  if utcYear < -9999 ∨ utcYear > 9999 then .refused else if utcYear < 0 then .refused else .ok utcYear
+/-- pinned commit: `to_offset` panics outside -9999..9999 -/
+def validityYearToUtcPinned (utcYear : Int) : Out Int :=
+  if utcYear < -9999 ∨ utcYear > 9999 then .panic else if utcYear < 0 then .refused else .ok utcYear
+
 end IsoMdl.Partial
